@@ -51,7 +51,8 @@ def legal(c: PCase) -> bool:
 def make_data(rng: random.Random, c: PCase, size_hi: int = 3):
     nd = len(c.shape)
     c.vals = gen_vals(rng, math.prod(c.shape), c.dtype, c.stream)
-    c.labels = gen_labels_uneven(rng, c.shape[nd - c.by_ndim:], len(c.expected), c.expected)
+    pool = c.expected if c.expected is not None else rng.choice(EXPECTED)      # expected_groups not given: labels from a pool
+    c.labels = gen_labels_uneven(rng, c.shape[nd - c.by_ndim:], len(pool), pool)
 
 
 def pick_fill(rng, func, dtype):
@@ -85,6 +86,11 @@ def random_case(rng: random.Random, tier: str) -> PCase:
             c.chunks = [gen_chunks_dim(rng, s) for s in shape]
             c.method = rng.choice([None, "map-reduce", "map-reduce"])
             c.dask_labels = rng.random() < 0.2
+        if rng.random() < 0.25:
+            # expected_groups not given: the labels found are the groups; a group absent from one slice still gets the user's
+            # fill_value (no Lean model line for these cases: compared with the NumPy oracle only)
+            c.expected = None
+            c.dask_labels = False
         make_data(rng, c)
         if legal(c):
             return c
@@ -183,7 +189,7 @@ class C08(Prop):
             "(thorough: also chunked along each single dim in turn, four reductions per variant); (random) random layouts/shapes "
             "(dims 1-3, thorough 1-4), 15 order-free reductions on any axis subset and 8 order-sensitive ones on a single axis, "
             "float64/int64/bool data with NaN/+-inf, engines numpy/flox (thorough: also None and numbagg), fills NaN/-7/0, random chunkings, numpy or "
-            "dask labels. Labels: every index of the first label dim draws its own missing-rate (0/0.3/0.7/1) and its own subset "
+            "dask labels, expected_groups given (75 %) or not (the labels found are the groups; oracle only). Labels: every index of the first label dim draws its own missing-rate (0/0.3/0.7/1) and its own subset "
             "of the expected groups, so missing labels and absent groups are spread unevenly over slices; sometimes a label "
             "outside expected_groups. Checks per case: flox == Lean model (values, shape, error kind), NumPy slice-by-slice oracle "
             "== Lean spec, flox == oracle (values exactly; mean 4ulp; var 1e-9), result shape == kept dims ascending + group axis "
@@ -197,7 +203,7 @@ class C08(Prop):
     ]
 
     def n_random(self, tier, search):
-        n = 400 if tier == "quick" else 4000
+        n = 1600 if tier == "quick" else 8000
         return n * 3 if search else n
 
     def run(self, rng, tier, rep: Report, search=False):
